@@ -1,9 +1,3 @@
-"""Per-property manifest texts."""
-HOOK_COMMITS = ["062389c"]
+"""Manifest data that is not per-property (per-property texts live in units.d/<ID>.json)."""
+HOOK_COMMITS = ["062389c", "c056251"]
 NOT_APPLICABLE = []
-META = {
- "C01": dict(
-  technique="runtime monitoring: reference-model oracle over seeded + small-scope-enumerated operation programs on the real commit log, concurrent run under the Go race detector",
-  text="Held on the executions explored: thousands of seeded and exhaustively enumerated short operation programs (append batches, replicated message sets, truncations at every position class, reopen, 7 segment sizes) are run on the real commitLog; after every step everything readable (every start offset, committed and uncommitted, plus a raw parse of the segment files) is compared with an independent model. A concurrent appender/roller/readers run under -race covers the segment-roll CAS. Exploration, not proof: inputs outside the generated space are not covered.",
-  note="Trusted: the reference model in harness/commitlog/c01_test.go and the independent decoder in common_test.go; process-level behaviour of the OS file system. Nil header values and truncation below the HW are excluded (unreachable through the server)."),
-}
